@@ -165,6 +165,7 @@ class JsonCacheHandler(BaseCacheHandler):
         self.__type_storage.clear()
         self.__attr_storage.clear()
         self.__effect_storage.clear()
+        self.__buff_template_storage.clear()
         # Process effects first, as item types rely on effects being available
         for effect_data in cache_data['effects']:
             effect = self.__effect_decompress(effect_data)
